@@ -79,6 +79,7 @@ func run(ctx *core.Ctx) error {
 	cases = append(cases, bc...)
 	cases = append(cases, structureCases()...)
 	cases = append(cases, mutationCases(ctx)...)
+	cases = append(cases, jbig2Cases(ctx)...)
 	lz := lzwStateCases(ctx)
 	lzFrom := len(cases)
 	cases = append(cases, lz...)
@@ -102,7 +103,7 @@ func run(ctx *core.Ctx) error {
 			recs[i] = Rec{Outcome: "data", RawLen: len(c.Body()), Class: c.Class, Note: "skipped after a hang in this class"}
 			continue
 		}
-		recs[i] = measure(c, keep || isLZ)
+		recs[i] = measure(c, keep || isLZ, c.BodyGen != "")
 		if recs[i].Outcome == "hang" {
 			hung[c.Class] = true
 		}
@@ -161,11 +162,42 @@ func run(ctx *core.Ctx) error {
 	if err != nil {
 		return err
 	}
+	// A record outside the envelope counts only when the case, run again in
+	// isolation (after a garbage collection, nothing else going on in the
+	// process), is outside the envelope again.
+	var again []int
 	for i := range cases {
 		if bad[i] {
-			rp.violation(cases[i], recs[i])
+			again = append(again, i)
 		}
 	}
+	unconfirmed := 0
+	if len(again) > 0 {
+		if len(again) > 200 {
+			again = again[:200]
+		}
+		confirm := make([]Rec, len(again))
+		for k, i := range again {
+			confirm[k] = measure(cases[i], false, true)
+			ctx.Ev.Eval(1)
+			if cases[i].BodyGen != "" {
+				cases[i].body = nil
+			}
+		}
+		bad2, err := judge(ctx, confirm)
+		if err != nil {
+			return err
+		}
+		for k, i := range again {
+			if bad2[k] {
+				rp.violation(cases[i], confirm[k])
+			} else {
+				unconfirmed++
+				ctx.Logf("not confirmed in isolation (no verdict): %s: first %+v, again %+v", cases[i].Class, recs[i], confirm[k])
+			}
+		}
+	}
+	ctx.Ev.Set("envelope_rejections_not_confirmed_in_isolation", unconfirmed)
 	worstWall, worstAlloc := 0, 0
 	for _, r := range recs {
 		if r.WallUs > worstWall {
@@ -176,6 +208,15 @@ func run(ctx *core.Ctx) error {
 		}
 	}
 	ctx.Ev.Set("worst_wall_us", worstWall)
+	closest, closestClass := 0, ""
+	for _, r := range recs {
+		limit := 8192 + min(r.RawLen+1, 262144) + 6144 + r.Produced/256
+		if pct := r.AllocKB * 100 / limit; pct > closest {
+			closest, closestClass = pct, r.Class
+		}
+	}
+	ctx.Ev.Set("closest_to_allocation_limit_percent", closest)
+	ctx.Ev.Set("closest_to_allocation_limit_class", closestClass)
 	ctx.Ev.Set("worst_alloc_kb", worstAlloc)
 	for i, c := range bombs {
 		if i < 3 {
